@@ -9,6 +9,8 @@
    pass the poll is
         slack t D = 0 if D <= t,   (D - t - 1) / k + 1 otherwise   (unbounded when k = 0)
    and the instruction after them is interrupted: [plain_on] / [loop_on] are closed forms.
+   Only a thread that is still running is interrupted: the `end` and `wait` commands are
+   never followed by an interruption.
    A runaway loop (PLoop) under protection therefore always ends in CommandOverflow at a
    computed time; without protection (or without a limit, or with a clock that does not
    advance) the host call does not return: None.  With protection off the deadline is
@@ -95,10 +97,7 @@ Fixpoint sp_instrs (p : prog) (tid lvl : N) (a : core) (cmd D : N) {struct p} : 
   | (a1, Some (cmd1, D1)) =>
       match p with
       | PEnd =>
-          match sp_post (count a1) cmd1 D1 with
-          | (a2, None) => Some (a2, RRaise EOverflow)
-          | (a2, Some _) => Some (a2, RDone)
-          end
+          let '(a2, _) := tick c (count a1) in Some (a2, RDone)
       | PWork n k =>
           match sp_plain n a1 cmd1 D1 with
           | (a2, None) => Some (a2, RRaise EOverflow)
@@ -115,10 +114,7 @@ Fixpoint sp_instrs (p : prog) (tid lvl : N) (a : core) (cmd D : N) {struct p} : 
           | (a2, Some (cmd2, D2)) => sp_instrs k tid lvl a2 cmd2 D2
           end
       | PWait d k =>
-          match sp_post (add_timing tid d k (count a1)) cmd1 D1 with
-          | (a2, None) => Some (a2, RRaise EOverflow)
-          | (a2, Some _) => Some (a2, RDone)
-          end
+          let '(a2, _) := tick c (add_timing tid d k (count a1)) in Some (a2, RDone)
       | PFault k =>
           let '(a2, cmd2) := tick c (log_warn c (count a1)) in
           sp_instrs k tid lvl a2 cmd2 D1
